@@ -4,6 +4,8 @@ import (
 	"bufio"
 	"compress/gzip"
 	"context"
+	"encoding/binary"
+	"io"
 	"os"
 
 	"github.com/specterops/dawgs/graph"
@@ -30,15 +32,34 @@ func (s BFSTreeFile) ReadEach(ctx context.Context, delegate func(next *Segment) 
 		} else {
 			defer gzipReader.Close()
 
-			scanner := bufio.NewScanner(fin)
-			scanner.Split(bufio.ScanLines)
+			// Each record is the byte length of the marshalled segment followed by the segment
+			// itself. Segment bytes are arbitrary binary IDs, so no delimiter byte is safe.
+			var (
+				reader       = bufio.NewReader(gzipReader)
+				lengthBytes  = make([]byte, 4)
+				segmentBytes []byte
+			)
 
-			for scanner.Scan() {
-				if err := scanner.Err(); err != nil {
+			for {
+				if _, err := io.ReadFull(reader, lengthBytes); err == io.EOF {
+					break
+				} else if err != nil {
 					return err
 				}
 
-				if shouldContinue, err := delegate(UnmarshalSegment(scanner.Bytes())); err != nil {
+				segmentLength := int(binary.LittleEndian.Uint32(lengthBytes))
+
+				if cap(segmentBytes) < segmentLength {
+					segmentBytes = make([]byte, segmentLength)
+				}
+
+				segmentBytes = segmentBytes[:segmentLength]
+
+				if _, err := io.ReadFull(reader, segmentBytes); err != nil {
+					return err
+				}
+
+				if shouldContinue, err := delegate(UnmarshalSegment(segmentBytes)); err != nil {
 					return err
 				} else if !shouldContinue {
 					break
@@ -54,6 +75,7 @@ func WriteZoneBFSTree(zoneNodes graph.NodeSet, ts Triplestore, scratchPath strin
 	var (
 		numPaths           = uint64(0)
 		zoneNodeMembership = zoneNodes.IDBitmap()
+		lengthBytes        = make([]byte, 4)
 	)
 
 	defer util.SLogMeasureFunction("WriteZoneBFSTree")()
@@ -78,11 +100,14 @@ func WriteZoneBFSTree(zoneNodes graph.NodeSet, ts Triplestore, scratchPath strin
 				func(segment *Segment) bool {
 					numPaths += 1
 
-					if err := MarshalSegment(segment, scratchFileWriter); err != nil {
+					// A segment of depth n marshals to n node IDs and n-1 edge IDs of 8 bytes each
+					binary.LittleEndian.PutUint32(lengthBytes, uint32((2*segment.Depth()-1)*8))
+
+					if _, err := scratchFileWriter.Write(lengthBytes); err != nil {
 						panic(err)
 					}
 
-					if _, err := scratchFileWriter.Write([]byte("\n")); err != nil {
+					if err := MarshalSegment(segment, scratchFileWriter); err != nil {
 						panic(err)
 					}
 
